@@ -275,6 +275,14 @@ def copy_vs_constructor(out, rng):
                 if not same:
                     out.failures.append(('copy-vs-constructor', '%r.copy(**%r) gave %r but constructing it afresh gives %r' % (fm, ov, c, f),
                                          {'component': 'copy-vs-constructor', 'message': repr(fm), 'overrides': repr(ov)}))
+                elif f[0] == 'ok':
+                    # valid values: skipping the checks must not change the result (what the values are stored as included)
+                    n += 1
+                    c2 = _outcome(lambda: fm.copy(skip_checks=True, **ov))
+                    if not (c2[0] == 'ok' and c2[1] == f[1] and type(c2[1]) is type(f[1]) and c2[1] is not fm
+                            and {k: type(v) for k, v in vars(c2[1]).items()} == {k: type(v) for k, v in vars(f[1]).items()}):
+                        out.failures.append(('copy-skip-checks', '%r.copy(skip_checks=True, **%r) gave %r (%r) but constructing it afresh gives %r'
+                                             % (fm, ov, c2, vars(c2[1]) if c2[0] == 'ok' else None, f), {'component': 'copy-vs-constructor', 'message': repr(fm), 'overrides': repr(ov)}))
     out.evaluations += n
     out.components['copy-vs-constructor (valid and invalid override sets, implementation against the property statement)'] = {
         'cases': n, 'copies_made': dist_ok, 'rejected': dist_err}
